@@ -116,12 +116,18 @@ func c06Scenarios(tier string) []*Scenario {
 	// two calls one after the other, the first given up by its caller (own deadline) possibly before its
 	// server goroutine got to decode the request: each handler still gets its own call's request
 	for _, h0 := range [][]string{{"dec", "ret:ok"}, {"w", "dec", "ret:ok"}} {
-		sc := &Scenario{Prop: "C06", Transport: "inproc", Bound: -1, Opts: "seq0,timers", Cloner: "recording", RPCs: []RPC{
+		sc := &Scenario{Prop: "C06", Transport: "inproc", Bound: -1, Opts: "seq0,timers", Cloner: "recording+yield", RPCs: []RPC{
 			{Kind: "unary", Client: []string{"I"}, Handler: h0, Timeout: "1s"},
 			{Kind: "unary", Client: []string{"I"}, Handler: []string{"dec", "ret:ok"}},
 		}}
 		sc.Name = "after-an-abandoned-call|" + rpcName(sc.RPCs[0]) + " >> " + rpcName(sc.RPCs[1])
 		out = append(out, sc)
+		// ... and both calls to the same method (what the library keeps per method is shared)
+		sc2 := *sc
+		sc2.RPCs = append([]RPC(nil), sc.RPCs...)
+		sc2.Opts += ",samemethod"
+		sc2.Name = "same-method|" + sc.Name
+		out = append(out, &sc2)
 	}
 	// one message object per sender, sent again and again: overwritten in place before every send, scribbled
 	// over once the send has returned, while the receiver may not have taken the previous one yet; and the
